@@ -22,6 +22,7 @@ import GeoProofs.Lemmas.MONOChain
 import GeoProofs.Lemmas.MONO2Glue
 import GeoProofs.Lemmas.MONO3Glue
 import GeoProofs.Lemmas.MONO3Run
+import GeoProofs.Lemmas.MONO3Cmp
 import GeoProofs.Props.C19
 import Mathlib.Tactic.NormNum
 
@@ -678,6 +679,24 @@ example : ∀ m ∈ (MonoBuild.monotoneSubdivision k2Witness2).getD [], wellForm
   cases h : MonoBuild.monotoneSubdivision k2Witness2 with
   | none => simp
   | some ms => exact monotone_pieces_wellFormed_tips_partial _ ms (by decide +kernel) h
+
+open Geo.MonoBuild Geo.Proofs.MONO3 in
+/-- [T] (item 3 of MONO2, first part) `LineOrPoint::partial_cmp` never fails on two proper lines that both span a common
+sweep position (`left ≤ p < right`), nor on a proper line with `left ≤ p ≤ right` and the point `p`: the panic
+"unable to compare active segments!" of `Active::cmp` needs a segment in the active set that does not span the position at
+which it is compared. What item 3 still needs is the ORDER part (transitivity / antisymmetry of these answers for pairwise
+non-crossing segments), see the comment below. -/
+theorem active_cmp_defined_on_spanning {la ra lb rb l r p : Pt}
+    (ha1 : lexLt p la = false) (ha2 : lexLt p ra = true) (hb1 : lexLt p lb = false) (hb2 : lexLt p rb = true)
+    (h1 : lexLt p l = false) (h2 : lexLt r p = false) :
+    ((LoP.line la ra).cmp? (LoP.line lb rb)).isSome = true ∧
+    ((LoP.line l r).cmp? (LoP.point p)).isSome = true ∧ ((LoP.point p).cmp? (LoP.line l r)).isSome = true :=
+  ⟨cmp?_isSome_of_span ha1 ha2 hb1 hb2, cmp?_point_isSome_of_span h1 h2⟩
+
+example : ((MonoBuild.LoP.line ⟨0, 0⟩ ⟨4, 1⟩).cmp? (MonoBuild.LoP.line ⟨1, 2⟩ ⟨3, 5⟩)).isSome = true :=
+  (active_cmp_defined_on_spanning (p := ⟨1, 2⟩) (l := ⟨0, 0⟩) (r := ⟨4, 1⟩)
+    (by decide +kernel) (by decide +kernel) (by decide +kernel) (by decide +kernel) (by decide +kernel)
+    (by decide +kernel)).1
 
 /- NOT proved (item 3 of MONO2): for a `polyValid` polygon without holes the model does not return `none`. The
 panics of the model are: (a) `Active::cmp` on two segments that `LineOrPoint::partial_cmp` cannot order (`indexOf`,
